@@ -467,8 +467,13 @@ func (s *reprovider) Reprovide(ctx context.Context) error {
 		return err
 	}
 
+	// A batch size of 0 would never read from kch and spin forever: treat
+	// MaxBatchSize(0) as "no limit" and ignore a 0 throughput threshold.
 	batchSize := s.maxReprovideBatchSize
-	if s.throughputCallback != nil && s.throughputMinimumProvides < batchSize {
+	if batchSize == 0 {
+		batchSize = math.MaxUint
+	}
+	if s.throughputCallback != nil && s.throughputMinimumProvides > 0 && s.throughputMinimumProvides < batchSize {
 		batchSize = s.throughputMinimumProvides
 	}
 
